@@ -152,11 +152,15 @@ def classify(res, harnesses, log_path):
             logtxt = fh.read()
     except Exception:
         pass
+    fallback = parse_terse_log(logtxt) if res is None else {}
     for h in harnesses:
         r = by_id.get(h)
+        if r is None and h in fallback:
+            out[h] = fallback[h]
+            continue
         info = {"harness": h, "verdict": "inconclusive", "reason": "", "failed_checks": [],
                 "covers_total": 0, "covers_satisfied": 0, "checks_total": 0,
-                "checks_passed": 0, "stats": stats.get(h, {}), "duration_s": None}
+                "checks_passed": 0, "stats": stats.get(h) or {}, "duration_s": None}
         if r is None:
             why = "no-result"
             if "error: could not compile" in logtxt or "error[E" in logtxt:
@@ -213,6 +217,65 @@ def classify(res, harnesses, log_path):
                 info["verdict"] = "pass"
         else:
             info["reason"] = "status-" + str(r["status"]) + (":" + exit_status if exit_status else "")
+        out[h] = info
+    return out
+
+
+def parse_terse_log(txt):
+    """Fallback when kani-driver died before exporting JSON (it panics when a CBMC process is
+    killed mid-output): recover per-harness verdicts from the terse log.  Anything not
+    positively identified stays inconclusive."""
+    out = {}
+    cur = {}          # thread -> harness
+    blocks = {}       # harness -> list of lines
+    active = None
+    for line in txt.splitlines():
+        m = re.match(r"Thread (\d+): Checking harness (\S+?)\.\.\.", line)
+        if m:
+            cur[m.group(1)] = m.group(2)
+            active = None
+            continue
+        m = re.match(r"Thread (\d+):\s*$", line)
+        if m:
+            active = cur.get(m.group(1))
+            if active:
+                blocks[active] = []
+            continue
+        if line.startswith("Thread ") or line.startswith("thread '"):
+            active = None
+            continue
+        if active:
+            blocks[active].append(line)
+    for h, lines in blocks.items():
+        t = "\n".join(lines)
+        info = {"harness": h, "verdict": "inconclusive", "reason": "fallback-log", "failed_checks": [],
+                "covers_total": 0, "covers_satisfied": 0, "checks_total": 0, "checks_passed": 0,
+                "stats": {}, "duration_s": None}
+        m = re.search(r"\*\* (\d+) of (\d+) failed", t)
+        if m:
+            info["checks_total"] = int(m.group(2))
+            info["checks_passed"] = int(m.group(2)) - int(m.group(1))
+        m = re.search(r"\*\* (\d+) of (\d+) cover properties satisfied", t)
+        if m:
+            info["covers_satisfied"], info["covers_total"] = int(m.group(1)), int(m.group(2))
+        m = re.search(r"Verification Time: ([0-9.]+)s", t)
+        if m:
+            info["duration_s"] = float(m.group(1))
+        fails = re.findall(r"Failed Checks: (.*)\n File: \"([^\"]*)\", line (\d+), in (\S+)", t)
+        if "VERIFICATION:- SUCCESSFUL" in t:
+            if info["covers_total"] > 0 and info["covers_total"] == info["covers_satisfied"] and "undetermined" not in t:
+                info["verdict"], info["reason"] = "pass", ""
+            else:
+                info["reason"] = "vacuity: cover not satisfied (fallback log)"
+        elif "CBMC failed" in t or "out of memory" in t or "timed out" in t:
+            info["reason"] = "cbmc-crash-or-timeout"
+        elif fails:
+            if any("unwinding assertion" in f[0] for f in fails):
+                info["reason"] = "unwinding-assertion:" + fails[0][3]
+            else:
+                info["verdict"], info["reason"] = "fail", "counterexample"
+                info["failed_checks"] = [{"description": f[0], "function": f[3], "file": f[1], "line": f[2],
+                                          "category": "assertion"} for f in fails]
         out[h] = info
     return out
 
@@ -381,7 +444,7 @@ def check(pid, tier, only=None, jobs=None):
         for h, i in info.items():
             i["group_log"] = log_path
             all_info[h] = i
-            log(f"  {i['verdict']:12s} {h}  {i['reason']}  [{i['duration_s']}s solver={i['stats'].get('runtime_solver_s')}]")
+            log(f"  {i['verdict']:12s} {h}  {i['reason']}  [{i['duration_s']}s solver={(i.get('stats') or {}).get('runtime_solver_s')}]")
 
     # ---- decide
     violations = []
